@@ -672,7 +672,7 @@ func (b *pickfirstBalancer) updateSubConnState(sd *scData, newState balancer.Sub
 			// The effective state can be in either IDLE, CONNECTING or
 			// TRANSIENT_FAILURE. If it's  TRANSIENT_FAILURE, stay in
 			// TRANSIENT_FAILURE until it's READY. See A62.
-			if sd.effectiveState != connectivity.TransientFailure {
+			if sd.effectiveState != connectivity.TransientFailure && b.state != connectivity.TransientFailure {
 				sd.effectiveState = connectivity.Connecting
 				b.updateBalancerState(balancer.State{
 					ConnectivityState: connectivity.Connecting,
